@@ -272,7 +272,8 @@ def _lit(d, desc, t, depth, ctx, nullable, kinds, risky, in_obj):
 
 def gen_schema(d, *, max_types=8, rich_names=True, defaults=0.3, custom_scalars=True,
                mutation=True, subscription=False, input_heavy=False, descriptions=False,
-               want_custom_operations=None):
+               want_custom_operations=None, scalar_names=("DateTime", "JSONish", "Money"), n_scalars=(0, 2),
+               scalar_weight=1):
     desc = SchemaDesc()
     desc.want_custom_operations = want_custom_operations
     tnames = d.shuffle(TYPE_NAMES)
@@ -281,7 +282,7 @@ def gen_schema(d, *, max_types=8, rich_names=True, defaults=0.3, custom_scalars=
         return tnames.pop()
 
     n_enum = d.int(1, 3) if input_heavy else d.int(0, 2)
-    n_scalar = d.int(0, 2) if custom_scalars else 0
+    n_scalar = d.int(*n_scalars) if custom_scalars else 0
     n_input = d.int(2, 4) if input_heavy else d.int(0, 2)
     n_iface = d.int(0, 2)
     n_obj = d.int(1, 4)
@@ -305,9 +306,9 @@ def gen_schema(d, *, max_types=8, rich_names=True, defaults=0.3, custom_scalars=
         desc.enums[name] = vals or ["ONE"]
     # custom scalars
     for i in range(n_scalar):
-        desc.scalars.append(["DateTime", "JSONish", "Money"][i])
+        desc.scalars.append(scalar_names[i])
 
-    in_leaf = BUILTIN_SCALARS + list(desc.enums) + desc.scalars
+    in_leaf = BUILTIN_SCALARS + list(desc.enums) + desc.scalars * scalar_weight
     # inputs: names first (recursion / forward refs), then fields
     input_names = [take() + "Input" for _ in range(n_input)]
     desc.pending_inputs = set(input_names)
@@ -343,7 +344,7 @@ def gen_schema(d, *, max_types=8, rich_names=True, defaults=0.3, custom_scalars=
     iface_names = [take() for _ in range(n_iface)]
     obj_names = [take() for _ in range(n_obj)]
     union_names = [take() + "Union" for _ in range(n_union)]
-    out_leaf = BUILTIN_SCALARS + list(desc.enums) + desc.scalars
+    out_leaf = BUILTIN_SCALARS + list(desc.enums) + desc.scalars * scalar_weight
     composite = iface_names + obj_names + union_names
 
     def gen_args():
